@@ -400,6 +400,21 @@ Theorem C04_multi_unit_TUs : forall (le : bool) (us : list unit),
 Proof. exact iter_TUs_exact. Qed.
 Print Assumptions C04_multi_unit_TUs.
 
+(* the j-th unit among others: its table loads and its entries / iteration are the expected ones at their
+   section offsets (off = total encoded size of the units before it) *)
+Theorem C04_section_unit_exact : forall (sec abbrev_sec : list Z) (before : list unit) (u : unit) (after : list unit) (in_info : bool),
+  sec = encode_section (before ++ u :: after) ->
+  unit_wf u = true -> table_at abbrev_sec u ->
+  let off := zlen (encode_section before) in
+  let M := expect_munit u sec off in
+  unit_sibs_ok u in_info sec off = true ->
+  open_unit abbrev_sec sec (expect_unit_ctx u off) = Ok M /\
+  Forall (fun x => get_die M (x_off x) = Ok x)
+         (expect_dies (u_cfg u) (t_decls (u_table u)) (unit_entries u) (off + header_size u)) /\
+  iter_DIEs M = Ok (expect_dies (u_cfg u) (t_decls (u_table u)) (unit_entries u) (off + header_size u)).
+Proof. exact section_unit_exact. Qed.
+Print Assumptions C04_section_unit_exact.
+
 (* ------------------------------------------------------------------ non-vacuity *)
 Example C04_ex_cfg : In (mkcfg false true true 5) all_cfgs /\ In (0x28, "DW_FORM_strx4") std_form_names /\
   std_form_class (mkcfg false true true 5) 0x28 = Some (CFixed 4) /\
